@@ -29,7 +29,7 @@ var c12alphabet = []struct {
 
 var libSite = regexp.MustCompile(`^[a-z_]+\.go:\d+$`)
 
-func c12body(seq []int, sm bool, writeFails bool) func() {
+func c12body(seq []int, sm bool, writeFails bool, reset bool) func() {
 	return func() {
 		vrt.Quiet(true)
 		var stream strings.Builder
@@ -72,7 +72,13 @@ func c12body(seq []int, sm bool, writeFails bool) func() {
 		if cut > 0 {
 			conn.send(full[:cut])
 		}
-		conn.close()
+		if reset {
+			// the loss shows up as a read error (connection reset), not as an orderly end of stream
+			conn.closed = true
+			conn.raw.Reset()
+		} else {
+			conn.close()
+		}
 		vrt.WaitIdle()
 		vrt.Quiet(true)
 		// --- oracle
@@ -93,8 +99,8 @@ func c12body(seq []int, sm bool, writeFails bool) func() {
 		if complete > 0 {
 			lastComplete = names[complete-1]
 		}
-		ctx := fmt.Sprintf("inbound %v cut at byte %d of %d (%s, last complete element: %s) sm=%v write-after-cut-fails=%v", names, cut, len(full), where, lastComplete, sm, writeFails)
-		key := fmt.Sprintf("|cut=%s|last=%s|writefails=%v", strings.SplitN(where, "-", 2)[0], lastComplete, writeFails)
+		ctx := fmt.Sprintf("inbound %v cut at byte %d of %d (%s, last complete element: %s) sm=%v write-after-cut-fails=%v reset=%v", names, cut, len(full), where, lastComplete, sm, writeFails, reset)
+		key := fmt.Sprintf("|cut=%s|last=%s|writefails=%v|reset=%v", strings.SplitN(where, "-", 2)[0], lastComplete, writeFails, reset)
 		nErr, nEv := len(s.errs)-nErr0, 0
 		var smOK = true
 		for _, ev := range s.events[nEv0:] {
@@ -188,8 +194,10 @@ func TestVerifC12(t *testing.T) {
 				for _, k := range q {
 					n = append(n, c12alphabet[k].name)
 				}
-				scs = append(scs, hx.Scenario{Name: fmt.Sprintf("seq=%s/sm=%v/writefails=%v", strings.Join(n, ","), sm, wf),
-					Opt: vrt.Options{Bound: bound, Horizon: 100000}, Body: c12body(q, sm, wf), Verdict: c12verdict})
+				for _, rst := range []bool{false, true} {
+					scs = append(scs, hx.Scenario{Name: fmt.Sprintf("seq=%s/sm=%v/writefails=%v/reset=%v", strings.Join(n, ","), sm, wf, rst),
+						Opt: vrt.Options{Bound: bound, Horizon: 100000}, Body: c12body(q, sm, wf, rst), Verdict: c12verdict})
+				}
 			}
 		}
 	}
